@@ -342,9 +342,15 @@ func runC15(ctx *core.Ctx) {
 		}
 	})
 	if ctx.Thorough() {
+		// first operation: one representative of every kind (the second ranges over the whole alphabet)
+		first := []c15Op{{Op: "profiles", Names: []string{"p"}}, {Op: "profiles", Names: []string{"*"}},
+			{Op: "enable", Names: []string{"a"}}, {Op: "enable", Names: []string{"b", "c"}},
+			{Op: "disable", Names: []string{"b"}}, {Op: "disable", Names: []string{"a", "c"}},
+			{Op: "select", Names: []string{"a"}, Pol: "deps"}, {Op: "select", Names: []string{"b"}, Pol: "dependents"},
+			{Op: "select", Names: []string{"a", "c"}, Pol: "ignore"}, {Op: "prune"}}
 		c15SmallProjects(3, func(raw c15State) {
 			st := c15Loaded(raw, []string{})
-			for _, o1 := range ops3 {
+			for _, o1 := range first {
 				for _, o2 := range ops3 {
 					ctx.Count("exhaustive-3svc-2ops")
 					add(c15Args{Init: st, Ops: []c15Op{o1, o2}})
@@ -355,7 +361,7 @@ func runC15(ctx *core.Ctx) {
 	ctx.Res.Exhaustive = true
 
 	// 2. seeded random: mostly valid projects on ≤ 6 services, histories of ≤ 5 operations
-	for i := 0; i < ctx.Pick(20000, 500000); i++ {
+	for i := 0; i < ctx.Pick(20000, 250000); i++ {
 		st, all := c15RandProject(ctx.Rng, false)
 		n := 1 + ctx.Rng.Intn(5)
 		var ops []c15Op
@@ -370,7 +376,7 @@ func runC15(ctx *core.Ctx) {
 	}
 
 	// 3. malformed stream: cycles, self and dangling dependencies, overlapping sets, unknown and empty names
-	for i := 0; i < ctx.Pick(5000, 120000); i++ {
+	for i := 0; i < ctx.Pick(5000, 60000); i++ {
 		st, all := c15RandProject(ctx.Rng, true)
 		n := 1 + ctx.Rng.Intn(5)
 		var ops []c15Op
